@@ -25,6 +25,21 @@ theorem val26Z_toZ (l : List Nat) : val26Z (toZ l) = (val26N l : Int) := by
 
 theorem and_chain {a b : Prop} (ha : a) (hb : a → b) : a ∧ b := ⟨ha, hb ha⟩
 
+theorem list_eq_of_length_10 {α : Type} {l : List α} (hl : l.length = 10) :
+    ∃ a0 a1 a2 a3 a4 a5 a6 a7 a8 a9, l = [a0, a1, a2, a3, a4, a5, a6, a7, a8, a9] := by
+  obtain ⟨a0, t0, rfl, hl0⟩ := exists_of_length_succ hl
+  obtain ⟨a1, t1, rfl, hl1⟩ := exists_of_length_succ hl0
+  obtain ⟨a2, t2, rfl, hl2⟩ := exists_of_length_succ hl1
+  obtain ⟨a3, t3, rfl, hl3⟩ := exists_of_length_succ hl2
+  obtain ⟨a4, t4, rfl, hl4⟩ := exists_of_length_succ hl3
+  obtain ⟨a5, t5, rfl, hl5⟩ := exists_of_length_succ hl4
+  obtain ⟨a6, t6, rfl, hl6⟩ := exists_of_length_succ hl5
+  obtain ⟨a7, t7, rfl, hl7⟩ := exists_of_length_succ hl6
+  obtain ⟨a8, t8, rfl, hl8⟩ := exists_of_length_succ hl7
+  obtain ⟨a9, t9, rfl, hl9⟩ := exists_of_length_succ hl8
+  obtain rfl := List.length_eq_zero_iff.mp hl9
+  exact ⟨a0, a1, a2, a3, a4, a5, a6, a7, a8, a9, rfl⟩
+
 /-! ### `from_bytes` -/
 open Dalek.Gen.Norm.Field26
 
